@@ -88,7 +88,9 @@ func (c *ExecCtx) evalCall(st *State, call *ast.CallExpr) []Val {
 	args := c.evalArgs(st, call, sig, nil)
 	c.runBeforeCallAnchors(st, fn, call, recv, args)
 	res := c.dispatch(st, fn, recv, args, call.Pos(), call)
+	c.callArgs, c.callRecv = args, recv
 	c.runCallAnchors(st, fn, call, res)
+	c.callArgs, c.callRecv = nil, nil
 	return res
 }
 
